@@ -117,11 +117,22 @@ func (r Ring) DivRoundByLastModulus(p0, p1 Poly) {
 	// Center by (p-1)/2
 	pHalf := (r.SubRings[level].Modulus - 1) >> 1
 
-	r.SubRings[level].AddScalar(p0.Coeffs[level], pHalf, p0.Coeffs[level])
+	// The centered last row is an intermediate value: it overwrites the last row of
+	// p0 only if p1 is p0 (that row is dropped by the division anyway). Otherwise it
+	// goes to the row of p1 above the output level if there is one, else to a new
+	// slice, and p0 is left untouched.
+	last := p0.Coeffs[level]
+	if len(p1.Coeffs) <= level {
+		last = make([]uint64, len(p0.Coeffs[level]))
+	} else if &p1.Coeffs[level][0] != &p0.Coeffs[level][0] {
+		last = p1.Coeffs[level]
+	}
+
+	r.SubRings[level].AddScalar(p0.Coeffs[level], pHalf, last)
 
 	for i, s := range r.SubRings[:level] {
-		s.AddScalarLazyThenNegTwoModulusLazy(p0.Coeffs[i], s.Modulus-BRedAdd(pHalf, s.Modulus, s.BRedConstant), p0.Coeffs[i])
-		s.AddLazyThenMulScalarMontgomery(p0.Coeffs[level], p0.Coeffs[i], r.RescaleConstants[level-1][i], p1.Coeffs[i])
+		s.AddScalarLazyThenNegTwoModulusLazy(p0.Coeffs[i], s.Modulus-BRedAdd(pHalf, s.Modulus, s.BRedConstant), p1.Coeffs[i])
+		s.AddLazyThenMulScalarMontgomery(last, p1.Coeffs[i], r.RescaleConstants[level-1][i], p1.Coeffs[i])
 	}
 }
 
